@@ -65,7 +65,7 @@ func (fr *frame) store(addr Value, v Value) {
 		if p == nil {
 			fr.rtPanic("invalid memory address or nil pointer dereference")
 		}
-		*p = copyVal(v)
+		assignInPlace(p, v)
 	case *SymPtr:
 		nv := v.(*smt.Term)
 		for i := range p.Cells {
@@ -575,7 +575,13 @@ func (fr *frame) boundsCheck(idx *smt.Term, it types.Type, n int) int {
 		}
 		return int(v)
 	}
+	if w < 64 && uint64(n) > (uint64(1)<<uint(w))-1 && !isSigned(it) {
+		return -1 // every value of the index type is in range
+	}
 	inb := smt.ULt(idx, smt.BVC(w, uint64(n))) // unsigned compare covers negatives
+	if w < 64 && isSigned(it) && uint64(n) > (uint64(1)<<uint(w-1))-1 {
+		inb = smt.SLe(smt.BVC(w, 0), idx)
+	}
 	if !fr.w.path.branch(inb) {
 		fr.rtPanic(fmt.Sprintf("index out of range [symbolic] with length %d", n))
 	}
@@ -1030,6 +1036,30 @@ func (w *Worker) callBuiltin(caller *frame, callpos token.Pos, fn *ssa.Builtin, 
 		panic(targetPanic{v: args[0], msg: w.panicString(fr, args[0]), stack: fr.stack()})
 	case "recover":
 		return fr.doRecover()
+	case "SliceData":
+		sl, _ := args[0].([]Value)
+		return &DataPtr{Cells: sl}
+	case "StringData":
+		st := args[0].(Str)
+		cells := make([]Value, st.Len())
+		for i, t := range st.Terms() {
+			cells[i] = t
+		}
+		return &DataPtr{Cells: cells}
+	case "String":
+		dp, _ := args[0].(*DataPtr)
+		n := int(fr.concInt(args[1], "unsafe.String len"))
+		if dp == nil || n == 0 {
+			return Str{}
+		}
+		return MkStr(bytesOf(dp.Cells[:n]))
+	case "Slice":
+		dp, _ := args[0].(*DataPtr)
+		n := int(fr.concInt(args[1], "unsafe.Slice len"))
+		if dp == nil {
+			return []Value(nil)
+		}
+		return dp.Cells[:n:n]
 	case "ssa:wrapnilchk":
 		recv := args[0]
 		if p, ok := recv.(*Value); ok && p == nil {
@@ -1038,4 +1068,26 @@ func (w *Worker) callBuiltin(caller *frame, callpos token.Pos, fn *ssa.Builtin, 
 		return recv
 	}
 	panic(engineError("unknown built-in: " + fn.Name()))
+}
+
+// assignInPlace stores v into *dst keeping the identity of struct fields and
+// array elements (pointers to them taken earlier stay valid, as in real memory).
+func assignInPlace(dst *Value, v Value) {
+	switch nv := v.(type) {
+	case Struct:
+		if old, ok := (*dst).(Struct); ok && len(old) == len(nv) {
+			for i := range nv {
+				assignInPlace(&old[i], nv[i])
+			}
+			return
+		}
+	case Array:
+		if old, ok := (*dst).(Array); ok && len(old) == len(nv) {
+			for i := range nv {
+				assignInPlace(&old[i], nv[i])
+			}
+			return
+		}
+	}
+	*dst = copyVal(v)
 }
